@@ -40,7 +40,7 @@ def _emptiness(out, pred: AArr, ref: AArr, arrs):
     return pe, re_
 
 
-def run_constructor(ctx: Ctx, metrics, ech, gm, tp, lists):
+def run_constructor(ctx: Ctx, metrics, ech, gm, tp, lists, n_pred=3, n_ref=5):
     prog = ctx.prog
     rcls = prog.cls("panoptica_result:PanopticaResult")
     init = rcls.lookup("__init__")
@@ -49,7 +49,7 @@ def run_constructor(ctx: Ctx, metrics, ech, gm, tp, lists):
     def make(prefix):
         o = Obj(rcls, {})
         pred, ref = AArr("PRED", fresh=False), AArr("REF", fresh=False)
-        args = {"reference_arr": ref, "prediction_arr": pred, "num_pred_instances": 3, "num_ref_instances": 5, "tp": tp, "list_metrics": lists, "edge_case_handler": ech, "global_metrics": gm}
+        args = {"reference_arr": ref, "prediction_arr": pred, "num_pred_instances": n_pred, "num_ref_instances": n_ref, "tp": tp, "list_metrics": lists, "edge_case_handler": ech, "global_metrics": gm}
         it = ArrInterp(prog, init, args, metrics=metrics, self_obj=o, prefix=prefix)
         holder[len(holder)] = (o, pred, ref, it)
         return it
@@ -72,8 +72,8 @@ def check(ctx: Ctx):
     for m in metrics:
         name = m.attrs["_name_"]
         attr = f"global_bin_{name.lower()}"
-        for tp, lists in ((0, {}), (2, {metrics[0]: [Sym("v1"), Sym("v2")]})):
-            runs = run_constructor(ctx, metrics, ech, [m], tp, lists)
+        for tp, lists, npred, nref in ((0, {}, 3, 5), (2, {metrics[0]: [Sym("v1"), Sym("v2")]}, 3, 5), (1, {metrics[0]: [Sym("v1")]}, 1, 1)):
+            runs = run_constructor(ctx, metrics, ech, [m], tp, lists, npred, nref)
             for out, o, pred, ref, it in runs:
                 em = _emptiness(out, pred, ref, None)
                 construct = f"{init.qual}:metric={name}"
@@ -130,8 +130,24 @@ def check(ctx: Ctx):
                 ctx.decide("R13.1", init, init.node, f"{construct}:{cls_txt}:nomutation", "no in-place store reaches the caller's arrays", not bad, {"stores": [norm(n) for n, _ in bad]})
         # independence of tp / lists
     for key, d in results_by_tp.items():
-        if len(d) == 2:
-            ctx.decide("R13.1", init, init.node, f"{init.qual}:metric={key[0]}:pred_empty={key[1]},ref_empty={key[2]}:independent", "global metric does not depend on tp or the per-instance lists", d[0] == d[2], {"tp0": d[0], "tp2": d[2]})
+        if len(d) >= 2:
+            vals = set(d.values())
+            ctx.decide("R13.1", init, init.node, f"{init.qual}:metric={key[0]}:pred_empty={key[1]},ref_empty={key[2]}:independent", "global metric does not depend on tp, the instance counts or the per-instance lists", len(vals) == 1, {str(k): v for k, v in d.items()})
+    # requesting several global metrics at once gives each metric the value it has on its own
+    runs = run_constructor(ctx, metrics, ech, list(metrics), 0, {})
+    for out, o, pred, ref, it in runs:
+        em = _emptiness(out, pred, ref, None)
+        if em is None or out.kind == "raise":
+            ctx.decide("R13.1", init, out.node, f"{init.qual}:all-metrics", "requesting all global metrics together is evaluable", False if out.kind == "raise" else None, {"outcome": out.kind, "exc": out.exc, "decisions": [norm(n) for n, _, _ in out.decisions if isinstance(n, ast.AST)][:4]})
+            continue
+        pe, re_ = em
+        for m in metrics:
+            name = m.attrs["_name_"]
+            single = results_by_tp.get((name, pe, re_), {}).get(0)
+            got = repr(o.attrs.get(f"global_bin_{name.lower()}"))
+            if single is None:
+                continue
+            ctx.decide("R13.1", init, init.node, f"{init.qual}:all-metrics:{name}:pred_empty={pe},ref_empty={re_}", f"global_bin_{name.lower()} does not depend on which other global metrics are requested", got == single, {"alone": single, "with_all": got})
     # R13.3: metric not requested -> not computed
     runs = run_constructor(ctx, metrics, ech, [], 0, {})
     for out, o, pred, ref, it in runs:
